@@ -76,19 +76,7 @@ def run_engine(ctx, want: str) -> None:
     ctx.replayed += len(programs)
 
     # ---- TLC judges the observed applications -----------------------------------------------------
-    tf = os.path.join(ctx.scratch, "rewrite_trace.json")
-    with open(tf, "w") as f:
-        json.dump({"pairs": pairs, "apps": apps}, f)
-    tr = ctx.tlc(os.path.join(RW, "RewriteTrace.tla"), os.path.join(RW, "RewriteTrace.cfg"), tag="validate",
-                 env={"TRACE_FILE": tf}, workers=1, deadlock=False, timeout=3000)
-    if tr.errors or tr.returncode != 0:
-        raise MachineryError(f"RewriteTrace failed: {tr.errors[:2]}\n{tr.tail(25)}")
-    pair_res, app_res = {}, {}
-    for rec in tr.records():
-        if isinstance(rec, list) and rec and rec[0] == "pair":
-            pair_res[rec[1]] = (rec[2], rec[3])
-        elif isinstance(rec, list) and rec and rec[0] == "app":
-            app_res[rec[1]] = rec[2]
+    pair_res, app_res = _judge(ctx, pairs, apps, "validate")
     if len(pair_res) != len(pairs) or len(app_res) != len(apps):
         raise MachineryError(f"RewriteTrace judged {len(pair_res)}/{len(pairs)} pairs, {len(app_res)}/{len(apps)} applications")
     ctx.validated += len(pair_res) + len(app_res)
@@ -171,6 +159,52 @@ def run_engine(ctx, want: str) -> None:
     ctx.exhaustive = False
 
 
+TRACE_CHUNK_BYTES = 60_000_000     # JSON text per TLC run (one JVM each): the thorough corpus is several hundred MB
+
+
+def _judge(ctx, pairs: list, apps: list, tag: str):
+    """TLC (RewriteTrace) on the observed pairs and application records, in chunks; identical (before, after)
+    abstractions are judged once.  Returns ({pair id: (sameInterface, denEqual)}, {app id: broken clauses})."""
+    import hashlib
+
+    body_of, first_of, uniq = {}, {}, []
+    for p in pairs:
+        body = json.dumps({"before": p["before"], "after": p["after"]}, sort_keys=True)
+        h = hashlib.sha1(body.encode()).hexdigest()
+        body_of[p["id"]] = h
+        if h not in first_of:
+            first_of[h] = p["id"]
+            uniq.append(json.dumps(p))
+    items = [("pairs", x) for x in uniq] + [("apps", json.dumps(a)) for a in apps]
+    chunks, cur, size = [], {"pairs": [], "apps": []}, 0
+    for kind, text in items:
+        if size + len(text) > TRACE_CHUNK_BYTES and size:
+            chunks.append(cur)
+            cur, size = {"pairs": [], "apps": []}, 0
+        cur[kind].append(text)
+        size += len(text) + 2
+    chunks.append(cur)
+    got_pairs, app_res = {}, {}
+    for n, ch in enumerate(chunks):
+        tf = os.path.join(ctx.scratch, f"rewrite_trace_{tag}_{n}.json")
+        with open(tf, "w") as f:
+            f.write('{"pairs": [' + ", ".join(ch["pairs"]) + '], "apps": [' + ", ".join(ch["apps"]) + "]}")
+        tr = ctx.tlc(os.path.join(RW, "RewriteTrace.tla"), os.path.join(RW, "RewriteTrace.cfg"), tag=f"{tag}-{n}",
+                     env={"TRACE_FILE": tf}, workers=1, deadlock=False, timeout=3000)
+        if tr.errors or tr.returncode != 0:
+            raise MachineryError(f"RewriteTrace failed: {tr.errors[:2]}\n{tr.tail(25)}")
+        for rec in tr.records():
+            if isinstance(rec, list) and rec and rec[0] == "pair":
+                got_pairs[rec[1]] = (rec[2], rec[3])
+            elif isinstance(rec, list) and rec and rec[0] == "app":
+                app_res[rec[1]] = rec[2]
+        os.unlink(tf)
+    ctx.extra["rewrite_trace_chunks"] = ctx.extra.get("rewrite_trace_chunks", 0) + len(chunks)
+    ctx.extra["distinct_pairs_judged_by_tlc"] = ctx.extra.get("distinct_pairs_judged_by_tlc", 0) + len(uniq)
+    pair_res = {pid: got_pairs[first_of[h]] for pid, h in body_of.items() if first_of[h] in got_pairs}
+    return pair_res, app_res
+
+
 def functionalize_stage(ctx, cap: int) -> None:
     """C13, last clause ("a functionalized pass never alters its input model"): functionalize() around every kind of
     pass object over a sample of the TLC-generated corpus; the clause Functionalized of RewriteTrace.tla is evaluated by
@@ -185,19 +219,12 @@ def functionalize_stage(ctx, cap: int) -> None:
         apps += [a for a in r["apps"] if a["a"]["funcTried"]]
     if not apps:
         raise MachineryError("functionalize stage: no application recorded")
-    tf = os.path.join(ctx.scratch, "func_trace.json")
-    with open(tf, "w") as f:
-        json.dump({"pairs": [], "apps": apps}, f)
-    tr = ctx.tlc(os.path.join(RW, "RewriteTrace.tla"), os.path.join(RW, "RewriteTrace.cfg"), tag="functionalize",
-                 env={"TRACE_FILE": tf}, workers=1, deadlock=False, timeout=3000)
-    if tr.errors or tr.returncode != 0:
-        raise MachineryError(f"RewriteTrace failed: {tr.errors[:2]}\n{tr.tail(25)}")
+    _none, app_res = _judge(ctx, [], apps, "functionalize")
     judged = 0
-    for rec in tr.records():
-        if isinstance(rec, list) and rec and rec[0] == "app":
+    for key, broken in app_res.items():
+        if True:
             judged += 1
-            if "Functionalized" in rec[2]:
-                key = rec[1]
+            if "Functionalized" in broken:
                 a = next(x["a"] for x in apps if x["id"] == key)
                 pid = int(key.split(":", 1)[0])
                 ctx.violation(f"C13:functionalize:{key.split(':', 1)[1]}:" + ("input-altered" if not a["funcInputSame"] else "same-object"),
